@@ -7030,6 +7030,17 @@ class FrameGO(Frame):
         if key in self._columns:
             raise RuntimeError(f'The provided key ({key}) is already defined in columns; if you want to change or replace this column, use .assign to get new Frame')
 
+        # Wait until after extracting block from value before updating _columns, as value evaluation might fail.
+        block = self._setitem_block(value, fill_value)
+        self._columns.append(key)
+        self._blocks.append(block)
+
+    def _setitem_block(self,
+            value: tp.Any,
+            fill_value: tp.Any = np.nan
+            ) -> np.ndarray:
+        '''Given a value suitable for __setitem__, return the 1D array to be appended; raises without changing this FrameGO if the value is not usable.
+        '''
         row_count = len(self._index)
 
         if isinstance(value, Series):
@@ -7058,9 +7069,7 @@ class FrameGO(Frame):
             if block.ndim != 1 or len(block) != row_count:
                 raise RuntimeError('incorrectly sized, unindexed value')
 
-        # Wait until after extracting block from value before updating _columns, as value evaluation might fail.
-        self._columns.append(key)
-        self._blocks.append(block)
+        return block
 
 
     def extend_items(self,
@@ -7070,8 +7079,26 @@ class FrameGO(Frame):
         '''
         Given an iterable of pairs of column name, column value, extend this FrameGO. Columns values can be any iterable suitable for usage in __setitem__.
         '''
+        # evaluate and validate all pairs before appending any, so that a failure leaves this FrameGO unchanged
+        keys = []
+        blocks = []
+        keys_seen = set()
         for k, v in pairs:
-            self.__setitem__(k, v, fill_value)
+            if k in self._columns or k in keys_seen:
+                raise RuntimeError(f'The provided key ({k}) is already defined in columns; if you want to change or replace this column, use .assign to get new Frame')
+            keys_seen.add(k)
+            keys.append(k)
+            blocks.append(self._setitem_block(v, fill_value))
+
+        if self._columns.depth > 1:
+            # tree-form and depth of hierarchical labels can only be validated by appending: try on a copy
+            columns_trial = self._columns.copy()
+            for k in keys:
+                columns_trial.append(k)
+
+        for k, block in zip(keys, blocks):
+            self._columns.append(k)
+            self._blocks.append(block)
 
 
     def extend(self,
